@@ -20,26 +20,27 @@ type Class struct {
 	Kind string // op name: curry flip apply uncurry uncurrycurry tuple compose fmape joine bind traverse toerror
 	Tag  string // naming scheme / shape, for the statistics and the finding classes
 
-	Ps           []Param // curry, flip, apply, uncurrycurry, toerror
-	Outer, Inner []Param // uncurry
-	Rs           []int   // result types (toerror: without the trailing bool)
-	Ts           []int   // tuple component types
-	FromCall     bool    // tuple: deriveTuple(g()) instead of deriveTuple(a, b, …)
-	Ins          []int   // compose: parameter types of stage 0
-	Stages       [][]int // compose: non-error result types per stage
-	In           int     // fmape, bind, traverse: element type
-	Outs         []int   // fmape, joine, bind, traverse: non-error result types
-	LastExpr     string  // apply: Go source of the pre-bound argument when it is not a typed value built from the op line
-	LastPayload  int     // apply: the payload that expression denotes
-	ErrTy        string  // "" = the predeclared error; else a key of ErrTypes used in place of `error` …
-	ErrAt        string  // … "result": last result of the (first) stage function; "arg": the error VALUE given to join / toerror
-	Import       string  // import path the package's own file needs (for the argument expression only)
-	ErrExpr      string  // toerror: Go source of the supplied error value (error number 0) when it is not errOf(…)
-	Twin         bool    // a SECOND call site of the same derive function: same types, parameter names in another order
-	Variadic     string  // "" or the Go element type of a variadic last parameter (of stage VarStage for compose)
-	VarStage     int     // compose: which stage is variadic
-	siteTag      string  // set on the copy that generates the second call site
-	Split        bool    // bind: `fn, e := deriveFmap(f, g)` observed before `deriveJoin(fn, e)` (else the nested call)
+	Ps           []Param  // curry, flip, apply, uncurrycurry, toerror
+	Outer, Inner []Param  // uncurry
+	Rs           []int    // result types (toerror: without the trailing bool)
+	Ts           []int    // tuple component types
+	FromCall     bool     // tuple: deriveTuple(g()) instead of deriveTuple(a, b, …)
+	Ins          []int    // compose: parameter types of stage 0
+	Stages       [][]int  // compose: non-error result types per stage
+	In           int      // fmape, bind, traverse: element type
+	Outs         []int    // fmape, joine, bind, traverse: non-error result types
+	LastExpr     string   // apply: Go source of the pre-bound argument when it is not a typed value built from the op line
+	LastPayload  int      // apply: the payload that expression denotes
+	ErrTy        string   // "" = the predeclared error; else a key of ErrTypes used in place of `error` …
+	ErrAt        string   // … "result": last result of the (first) stage function; "arg": the error VALUE given to join / toerror
+	Rn           []string // names of the results of the function under test (nil: unnamed); toerror: the bool included
+	Import       string   // import path the package's own file needs (for the argument expression only)
+	ErrExpr      string   // toerror: Go source of the supplied error value (error number 0) when it is not errOf(…)
+	Twin         bool     // a SECOND call site of the same derive function: same types, parameter names in another order
+	Variadic     string   // "" or the Go element type of a variadic last parameter (of stage VarStage for compose)
+	VarStage     int      // compose: which stage is variadic
+	siteTag      string   // set on the copy that generates the second call site
+	Split        bool     // bind: `fn, e := deriveFmap(f, g)` observed before `deriveJoin(fn, e)` (else the nested call)
 }
 
 func wireName(n string) string {
@@ -81,6 +82,15 @@ func wireInts(head string, ns []int) string {
 
 // SigWire is the description of the class in an op line (after the cfg part).
 func (c *Class) SigWire() string {
+	if len(c.Rn) > 0 {
+		d := *c
+		d.Rn = nil
+		n := len(c.Rn)
+		if c.Kind == "toerror" {
+			n-- // the name of the trailing bool is not a result the wrapper returns
+		}
+		return d.SigWire() + " (rn " + strings.Join(c.Rn[:n], " ") + ")"
+	}
 	if c.Variadic != "" {
 		return c.sigWire() + fmt.Sprintf(" (variadic %d)", c.VarStage)
 	}
@@ -156,6 +166,11 @@ func (c *Class) sigWire() string {
 
 // GoSig is a readable rendering of the class (the derive call and the signature it is applied to).
 func (c *Class) GoSig() string {
+	if len(c.Rn) > 0 {
+		d := *c
+		d.Rn = nil
+		return d.GoSig() + " with results named (" + strings.Join(c.Rn, ", ") + ")"
+	}
 	if c.Variadic != "" {
 		return c.goSig() + fmt.Sprintf(" with a variadic last parameter ...%s (function %d)", c.Variadic, c.VarStage)
 	}
@@ -254,6 +269,26 @@ func goResults(ts []int, extra string) string {
 		return " " + ss[0]
 	}
 	return " (" + strings.Join(ss, ", ") + ")"
+}
+
+// namedResults prints a result list with names (all results are named, as Go requires).
+func namedResults(names []string, ts []int, extra string) string {
+	var ss []string
+	for i, t := range ts {
+		ss = append(ss, names[i]+" "+Types[t].Go)
+	}
+	if extra != "" {
+		ss = append(ss, names[len(ts)]+" "+extra)
+	}
+	return " (" + strings.Join(ss, ", ") + ")"
+}
+
+// resOf prints the results of the function under test as its TYPE spells them.
+func (c *Class) resOf(ts []int, extra string) string {
+	if len(c.Rn) > 0 {
+		return namedResults(c.Rn, ts, extra)
+	}
+	return goResults(ts, extra)
 }
 
 func ptys(ps []Param) []int {
@@ -445,7 +480,7 @@ func (c *Class) source() string {
 	case "curry", "flip", "apply", "uncurrycurry":
 		ts := ptys(c.Ps)
 		w("// F is the function under test; its TYPE carries the parameter names of the class.\n")
-		w("var F func(%s)%s = fImpl\n\n", goParams(c.Ps), goResults(c.Rs, ""))
+		w("var F func(%s)%s = fImpl\n\n", goParams(c.Ps), c.resOf(c.Rs, ""))
 		w("func fImpl(%s)%s {\n\ta := %s\n\tlogArgs(a)\n", implParams(ts, 0), goResults(c.Rs, ""), obsList(ts, 0))
 		if len(c.Rs) > 0 {
 			w("\treturn %s\n", strings.Join(mkResults(c.Rs, c.tag(fTag)), ", "))
@@ -479,7 +514,7 @@ func (c *Class) source() string {
 	case "uncurry":
 		ot, it := ptys(c.Outer), ptys(c.Inner)
 		w("// FC is the curried function under test.\n")
-		w("var FC func(%s) func(%s)%s = fcImpl\n\n", goParams(c.Outer), goParams(c.Inner), goResults(c.Rs, ""))
+		w("var FC func(%s) func(%s)%s = fcImpl\n\n", goParams(c.Outer), goParams(c.Inner), c.resOf(c.Rs, ""))
 		w("func fcImpl(%s) func(%s)%s {\n\tlogArgs(%s)\n", implParams(ot, 0), goParams(unnamed(it)), goResults(c.Rs, ""), obsList(ot, 0))
 		w("\treturn func(%s)%s {\n\t\ta := %s\n\t\tlogArgs(a)\n", implParams(it, len(ot)), goResults(c.Rs, ""), obsList(append(append([]int{}, ot...), it...), 0))
 		if len(c.Rs) > 0 {
@@ -559,7 +594,7 @@ func (c *Class) source() string {
 			Types[c.In].Go, Types[c.In].Go, c.In, out))
 	case "toerror":
 		ts := ptys(c.Ps)
-		w("var F func(%s)%s = fImpl\n\n", goParams(c.Ps), goResults(c.Rs, "bool"))
+		w("var F func(%s)%s = fImpl\n\n", goParams(c.Ps), c.resOf(c.Rs, "bool"))
 		w("func fImpl(%s)%s {\n\ta := %s\n\tlogStage(0, a)\n\treturn %s\n}\n", implParams(ts, 0), goResults(c.Rs, "bool"), obsList(ts, 0),
 			strings.Join(append(mkResults(c.Rs, c.tag("0")), "Ok"), ", "))
 		runFn("\tOk = in[\"ok\"][0] != 0\n"+c.errArg("err")+"\tw := deriveToError(e, F)\n", append(rvars(len(c.Rs)), "err"),
